@@ -104,7 +104,8 @@ def decStr (s : String) : List Char := if s == "-" then [] else decChars s
 /-! ### histories on ONE configuration object (`hist <prefix> <op> <op> …`)
 
     ops: `<l>=<tree>` replaces the content of level l (d c s u p r o m = defaults collection system user project
-    runtime overrides modifications); `<l>=-` unloads it without re-merging (`set_*(None)` + `load_*()`);
+    runtime overrides modifications); `<l>u=<tree>` replaces it with merge=False (cache untouched), `g` is `merge()`;
+    `<l>=-` unloads it without re-merging (`set_*(None)` + `load_*()`);
     `e=<environ>` is `load_shell_env()` under that environment (prints the view
     after it, or `err:<Class>` and stops); `v` prints the current view.  Printed items are joined by '|'. -/
 
@@ -117,12 +118,17 @@ def histRun (pre : List Char) : List String → LoadSt → List String → List 
   | [], _, acc => acc.reverse
   | op :: rest, st, acc =>
     if op == "v" then histRun pre rest st (("ok " ++ encTree st.cache) :: acc)
+    else if op == "g" then histRun pre rest st.remerge acc
     else match op.splitOn "=" with
       | [code, arg] =>
         if code == "e" then
           match st.loadShellEnv pre (decEnviron arg) with
           | .error e => (("err:" ++ errName e) :: acc).reverse
           | .ok st' => histRun pre rest st' (("ok " ++ encTree st'.cache) :: acc)
+        else if code.length == 2 && code.endsWith "u" then
+          match levelOfCode (code.dropEnd 1).toString, (if arg == "-" then some [] else decTree arg) with
+          | some l, some t => histRun pre rest (st.loadUnmerged l t) acc
+          | _, _ => ("bad-op" :: acc).reverse
         else if arg == "-" then
           match levelOfCode code with
           | some l => histRun pre rest (st.unload l) acc
